@@ -119,6 +119,23 @@ def one_history(ctx, drv):
         subprocess.run(['cp', '-a', a, b], check=True)
         history_ok = True
         for rnd in range(rng.randint(1, 6 if ctx.tier == 'thorough' else 4)):
+            # now and then an update limited to a sub-directory in between (it has not scanned the rest of the tree: the TIMESTAMP,
+            # which the next incremental run relies on as "the whole tree was scanned then", must stay)
+            if os.path.isdir(os.path.join(a, 'sub')) and rng.random() < 0.3:
+                ts0 = timestamp_of(a)
+                now += rng.choice([50, 3000])
+                if rng.random() < 0.7:
+                    for r in (a, b):
+                        open(os.path.join(r, 'sub', 'between-%d' % rnd), 'wb').write(b'x%d' % now)
+                        os.utime(os.path.join(r, 'sub', 'between-%d' % rnd), ns=(now * 10**9, now * 10**9))
+                    files['sub/between-%d' % rnd] = b'x%d' % now
+                rcs = [cli(['update', '-H', hashes, os.path.join(r, 'sub')], Clock(now)) for r in (a, b)]
+                scen_s = {'op': 'sub-directory-update-between', 'zone': zone, 'round': rnd, 'exit': rcs}
+                ctx.count('op:sub-directory-update-between-rounds')
+                ctx.case(json.dumps([scen_s, sorted(files), now]), True, scen_s)
+                if rcs == [0, 0] and timestamp_of(a) != ts0:
+                    ctx.fail('sub-directory-update-moved-the-timestamp', scen_s, f'{ts0} -> {timestamp_of(a)}')
+                    return
             prev_ts = timestamp_of(a)
             now += rng.choice([100, 4000, 50000])
             ops = []
@@ -248,7 +265,8 @@ def run(ctx):
                 'daylight-saving rules: CET/CEST, EST/EDT, AEST/AEDT}, starting in summer, in winter and minutes before a DST switch; the clock of '
                 'gemato.cli is controlled and advances during the scan; a modification injected right after a file was hashed. Oracle: '
                 'Manifests equal modulo TIMESTAMP whenever every same-size modification ended newer than the previous TIMESTAMP; '
-                'TIMESTAMP <= scan start; the injected change is repaired by the next incremental run; model correspondence.')
+                'TIMESTAMP <= scan start; the injected change is repaired by the next incremental run; a sub-directory update between '
+                'rounds leaves the TIMESTAMP alone; model correspondence.')
     ctx.assumptions = ['kernel timestamp granularity is not modelled; mtimes are set explicitly, at whole seconds and at millisecond offsets inside the second of the TIMESTAMP (float rounding of st_mtime below a microsecond is not exercised)']
     drv = common.Driver()
     try:
